@@ -3,7 +3,7 @@
    list, the seasonal options, combo_dictionary and the default maps in Generated/SplitsGen.v are
    regenerated from /repo on every run. *)
 From Coq Require Import ZArith List Bool String QArith.
-From V Require Import Model.Splits Generated.SplitsGen Proofs.SplitsProofs.
+From V Require Import Model.Splits Model.SplitsCal Generated.SplitsGen Proofs.SplitsProofs.
 Import ListNotations.
 Open Scope list_scope.
 
@@ -117,6 +117,77 @@ Theorem C13_selected_routes_unique : forall opts, parse_options seasonal_options
 Proof. exact selected_routes_unique_l. Qed.
 Print Assumptions C13_selected_routes_unique.
 
+(* the candidate list contains no partition twice (two texts that differ only in the order of their
+   components), and it has as many members as the list the code yields *)
+Theorem C13_candidates_distinct :
+  exists opts, parse_options seasonal_options = Some opts /\
+    NoDup (map canon_text (candidates opts)) /\
+    List.length (candidates opts) = List.length all_splits.
+Proof. exact candidates_distinct_l. Qed.
+Print Assumptions C13_candidates_distinct.
+
+(* trim keeps a split other than the unsplit one exactly when the conditions hold (nothing the
+   settings allow and the data support is dropped) *)
+Theorem C13_trim_exact : forall f c s, print_split s <> print_split unsplit ->
+  (trim_keep f c s = true <-> keep_spec f c s).
+Proof. exact trim_keep_iff_l. Qed.
+Print Assumptions C13_trim_exact.
+
+Theorem C13_trim_complete : forall f c l s, In s l ->
+  (print_split s = print_split unsplit \/ keep_spec f c s) -> In s (trim f c l).
+Proof. exact trim_complete_l. Qed.
+Print Assumptions C13_trim_complete.
+
+(* "splits the settings forbid or the data cannot support are never chosen": the split selected by
+   _best_combination among the candidates of _combinations() is the unsplit one or meets every
+   condition of the settings flags (after the ellipsoid filter) and of the day counts *)
+Theorem C13_selected_allowed : forall opts, parse_options seasonal_options = Some opts ->
+  forall f gauss sm wm h crit str,
+  map fst crit = combinations opts f gauss sm wm h -> best_x crit = Some str ->
+  str = "fw-su_sh_wi"%string \/
+  exists s, In s (candidates opts) /\ print_split s = str /\
+            keep_spec (match gauss with Some g => flags_and f g | None => f end) (counts_of sm wm h) s.
+Proof. exact selected_allowed_l. Qed.
+Print Assumptions C13_selected_allowed.
+
+(* ------------------------------------------------------------------ every date of the calendar *)
+(* the calendar model (days since 1970-01-01 -> month, ISO weekday; Model/SplitsCal.v) stays inside
+   the twelve months and seven days for every integer day number *)
+Theorem C13_calendar_ranges : forall z : Z,
+  (1 <= month_of z <= 12)%Z /\ (1 <= dom_of z <= 31)%Z /\ (1 <= dow_of z <= 7)%Z.
+Proof. intros z. split; [apply month_of_range_l|split; [apply dom_of_range_l|apply dow_of_range_l]]. Qed.
+Print Assumptions C13_calendar_ranges.
+
+Theorem C13_weekday_advances : forall z,
+  dow_of (z + 1)%Z = (if (dow_of z =? 7)%Z then 1 else dow_of z + 1)%Z.
+Proof. exact dow_of_next_l. Qed.
+Print Assumptions C13_weekday_advances.
+
+(* for ALL maps the settings validators can leave behind with the hard-wired names (12 months, 7
+   days; empty seasons, no weekend day, ... included), every exact cover and EVERY date (any integer
+   day number, leap years and century rules included): the date is received by exactly one component,
+   the one whose cell contains it *)
+Theorem C13_every_date_routed_once : forall s, exact_cover s -> forall sm wm, std_maps sm wm ->
+  forall z : Z,
+  exists c x, cell_of (lookup_s sm (month_of z)) (lookup_d wm (dow_of z)) = Some x /\
+              receivers s (lookup_s sm) (lookup_d wm) (month_of z) (dow_of z) = [c] /\
+              In c s /\ covers c x = true.
+Proof. exact date_routing_unique_l. Qed.
+Print Assumptions C13_every_date_routed_once.
+
+Theorem C13_date_routed_by_no_other : forall s, exact_cover s -> forall sm wm, std_maps sm wm ->
+  forall z c c', receivers s (lookup_s sm) (lookup_d wm) (month_of z) (dow_of z) = [c] ->
+  In c' s -> routes c' (lookup_s sm) (lookup_d wm) (month_of z) (dow_of z) = true -> c' = c.
+Proof. exact date_routing_only_l. Qed.
+Print Assumptions C13_date_routed_by_no_other.
+
+(* a day whose name is neither weekday nor weekend is received by full-week components only
+   (finding C13-F2) *)
+Theorem C13_foreign_day_unrouted : forall c sm wm month dow,
+  wm dow = OtherDay -> fst c <> FW -> routes c sm wm month dow = false.
+Proof. exact routes_foreign_day. Qed.
+Print Assumptions C13_foreign_day_unrouted.
+
 (* ------------------------------------------------------------------ non-vacuity *)
 Definition ex_split : split := [(FW, [SH]); (WD, [SU; WI]); (WE, [SU; WI])].
 Example C13_nonvacuous_routing :
@@ -143,3 +214,36 @@ Example C13_nonvacuous_best :
           ("e"%string, XFin (-1 # 4)); ("f"%string, XNaN)] = Some "d"%string /\
   best_x [("a"%string, XNaN); ("c"%string, XPosInf)] = None.
 Proof. split; vm_compute; reflexivity. Qed.
+
+(* 19782 = 2024-02-29 (a Thursday), 11016 = 2000-02-29 (Tuesday), 47541 = 2100-03-01 (Monday; 2100 is
+   not a leap year), -1 = 1969-12-31 (Wednesday) *)
+Example C13_nonvacuous_calendar :
+  (year_of 19782, month_of 19782, dom_of 19782, dow_of 19782) = (2024, 2, 29, 4)%Z /\
+  (year_of 11016, month_of 11016, dom_of 11016, dow_of 11016) = (2000, 2, 29, 2)%Z /\
+  (year_of 47541, month_of 47541, dom_of 47541, dow_of 47541) = (2100, 3, 1, 1)%Z /\
+  (year_of (-1), month_of (-1), dom_of (-1), dow_of (-1)) = (1969, 12, 31, 3)%Z.
+Proof. vm_compute. auto. Qed.
+
+Example C13_nonvacuous_dates :
+  std_maps default_season_map default_weekday_map /\ exact_cover ex_split /\
+  (* Saturday 2024-06-01 (day 19875): summer weekend *)
+  receivers ex_split (lookup_s default_season_map) (lookup_d default_weekday_map) (month_of 19875) (dow_of 19875)
+    = [(WE, [SU; WI])] /\
+  (* Thursday 2024-02-29: winter weekday *)
+  receivers ex_split (lookup_s default_season_map) (lookup_d default_weekday_map) (month_of 19782) (dow_of 19782)
+    = [(WD, [SU; WI])].
+Proof.
+  split; [|split; [apply exact_coverb_spec; vm_compute; reflexivity|split; vm_compute; reflexivity]].
+  repeat split; try reflexivity; repeat constructor; discriminate.
+Qed.
+
+Example C13_nonvacuous_keep_spec :
+  let f := {| a_su := true; a_sh := false; a_wi := true; a_wdwe := true |} in
+  let c := counts_of (lookup_s default_season_map) (lookup_d default_weekday_map) ex_hist in
+  keep_spec f c [(FW, [SH; WI]); (WD, [SU]); (WE, [SU])] /\
+  trim_keep f c [(FW, [SH; WI]); (WD, [SU]); (WE, [SU])] = true /\
+  trim_keep f c [(FW, [SU; WI]); (WD, [SH]); (WE, [SH])] = false.
+Proof.
+  cbv zeta. split; [|split; vm_compute; reflexivity].
+  apply trim_keep_iff_l; [vm_compute; discriminate|vm_compute; reflexivity].
+Qed.
